@@ -13,8 +13,8 @@ import (
 // the requested keys), or reads past the last element.
 func init() {
 	register(&Rule{
-		Name: "NEXTGUARD",
-		Doc: "(a) on every control-flow path between two consecutive element reads (`Next`, `NextStr`, `NextInt`, `NextBin`) of a struct/list/map iterator of the generic packages, `HasNext()` of that iterator type is called: a second Next* without an intervening HasNext consumes an element nobody asked for; (b) no path that starts on the edge where HasNext() returned false reaches a Next* of that iterator type without a new HasNext(): reading an exhausted iterator yields an empty element instead of an out-of-range error",
+		Name:     "NEXTGUARD",
+		Doc:      "(a) on every control-flow path between two consecutive element reads (`Next`, `NextStr`, `NextInt`, `NextBin`) of a struct/list/map iterator of the generic packages, `HasNext()` of that iterator type is called: a second Next* without an intervening HasNext consumes an element nobody asked for; (b) no path that starts on the edge where HasNext() returned false reaches a Next* of that iterator type without a new HasNext(): reading an exhausted iterator yields an empty element instead of an out-of-range error",
 		Configs:  "NP",
 		Floor:    map[string]int{"N": 20, "P": 20},
 		Controls: 1,
